@@ -35,7 +35,8 @@ import warnings
 from collections.abc import Mapping, Sequence
 
 from pywbem import CIMInstance, CIMInstanceName, CIMClass, CIMClassName, \
-    CIMParameter, CIMError, CIM_ERR_NOT_FOUND, CIM_ERR_INVALID_PARAMETER, \
+    CIMParameter, CIMProperty, CIMError, CIM_ERR_NOT_FOUND, \
+    CIM_ERR_INVALID_PARAMETER, \
     CIM_ERR_INVALID_CLASS, CIM_ERR_METHOD_NOT_FOUND, cimtype, \
     ToleratedSchemaIssueWarning
 from pywbem._utils import _format
@@ -365,9 +366,22 @@ class ProviderDispatcher(BaseProvider):
             # ModifiedInstance.
             for pn in property_list:
                 if pn not in modified_instance:
+                    cls_prop = creation_class.properties[pn]
+                    key_qual = cls_prop.qualifiers.get('Key')
+                    if key_qual is not None and key_qual.value:
+                        # Key properties cannot be modified; they keep
+                        # their current value.
+                        continue
                     # If the property in the class does not have a default
-                    # value, it is None.
-                    modified_instance[pn] = creation_class.properties[pn].value
+                    # value, it is None. The property is created from the
+                    # class declaration because the CIM type cannot be
+                    # inferred from a None value.
+                    modified_instance.properties[pn] = CIMProperty(
+                        cls_prop.name, cls_prop.value, type=cls_prop.type,
+                        is_array=cls_prop.is_array,
+                        array_size=cls_prop.array_size,
+                        reference_class=cls_prop.reference_class,
+                        embedded_object=cls_prop.embedded_object)
 
             # Remove properties from modified_instance that are not in
             # PropertyList.
